@@ -1921,3 +1921,67 @@ def symdel_many(H):
 @op("clustermap", rand=True, slow=True)
 def clustermap_heap_mappers(H):
     return pp.similarity_clustermap(H["df_cluster"], meta_columns=H["list_meta"], meta_to_colors=H["list_mappers"])
+
+
+# =============================================================================================
+# calls that fail LATE (after argument validation has passed and work has started)
+# =============================================================================================
+@heap
+def seqs_bad_letter():
+    return ["CASSLGQAYEQYF", "CASSLGQAYEQF", "CASSXGQAYEQYF", "CASSLG*AYEQYF", "casslgqayeqyf"]
+
+
+@op("kdtree")
+def kdtree_bad_letter(H):
+    return prs.kdtree(H["seqs_bad_letter"], max_edits=1)
+
+
+@op("kdtree")
+def kdtree_bad_letter_hamming(H):
+    return prs.kdtree(H["seqs_bad_letter"], max_edits=2, custom_distance="hamming")
+
+
+@op("kdtree", pool=True)
+def kdtree_bad_letter_ncpu2(H):
+    return prs.kdtree(H["seqs_bad_letter"] + H["seqs_list"], max_edits=1, n_cpu=2, compression=3)
+
+
+@op("kdtree", post=sorted_list, cb=cb_lev2)
+def kdtree_hamming_then_default(H, cb=cb_lev2):
+    return [sorted(prs.kdtree(H["seqs_list"], max_edits=2, custom_distance="hamming")), sorted(prs.kdtree(H["seqs_list"], max_edits=2)),
+            sorted(prs.kdtree(H["seqs_list"], max_edits=2, custom_distance=cb, max_custom_distance=4))]
+
+
+@op("symdel", post=sorted_list)
+def symdel_bad_letter(H):
+    return prs.symdel(H["seqs_bad_letter"], max_edits=1)
+
+
+@op("hash_based", post=sorted_list)
+def hash_based_bad_letter(H):
+    return prs.hash_based(H["seqs_bad_letter"], max_edits=1)
+
+
+@op("pcDelta")
+def pcDelta_bad_bins(H):
+    return prs.pcDelta(H["seqs_list"], bins=[3, 2, 1])
+
+
+@op("hclust")
+def hclust_bad_kws(H):
+    return prs.hierarchical_clustering(H["seqs_list"], cluster_kws={"t": 2, "criterion": "no-such-criterion"})
+
+
+@op("clustermap", rand=True, slow=True)
+def clustermap_bad_meta(H):
+    return pp.similarity_clustermap(H["df_cluster"], meta_columns=["no_such_column"])
+
+
+@op("standardize")
+def standardize_bad_species(H):
+    return prs.standardize_dataframe(H["df_raw"], species="NoSuchSpecies", suppress_warnings=True)
+
+
+@op("graph")
+def graph_bad_method(H):
+    return prs.graph_clustering(H["triplets_arr"], H["nodes_list"], clustering="no_such_method")
